@@ -36,6 +36,13 @@ func runC17(c *Ctx) {
 	// ---- stream ----
 	n := g.Draw(241)
 	nlDensity := pick(g, 2, 4, 8, 30, 1000)
+	// one run in six: a long stream with long lines and large chunks (buffer
+	// growth, capacity boundaries)
+	long := g.Chance(6)
+	if long {
+		n = 300 + g.Draw(6000)
+		nlDensity = pick(g, 300, 1000, 3000, 100000)
+	}
 	alphabet := pick(g, "ab", "abcdefghij \t", "a\x00\r\xff\xc3(", "x")
 	stream := make([]byte, n)
 	for i := range stream {
@@ -65,6 +72,9 @@ func runC17(c *Ctx) {
 				k = 1 + g.Draw(64)
 			case 3:
 				k = 0
+			}
+			if long && g.Chance(2) {
+				k = []int{200, 255, 256, 257, 511, 512, 513, 700, 1023, 1024, 1025, 2048, 3000}[g.Draw(13)] + g.Draw(3) - 1
 			}
 			if pos+k > len(stream) {
 				k = len(stream) - pos
@@ -102,6 +112,11 @@ func runC17(c *Ctx) {
 	writes, newlines, toggles := 0, 0, 0
 	var ed []string
 	scratch := make([]byte, 256)
+	for _, ev := range events {
+		if len(ev.chunk) > len(scratch) {
+			scratch = make([]byte, len(ev.chunk))
+		}
+	}
 	r.Go("producer", func() {
 		for i, ev := range events {
 			switch ev.kind {
@@ -134,7 +149,11 @@ func runC17(c *Ctx) {
 				for j := range scratch {
 					scratch[j] = 0xEE
 				}
-				ed = append(ed, fmt.Sprintf("W%q", ev.chunk))
+				if len(ev.chunk) > 48 {
+					ed = append(ed, fmt.Sprintf("W(%d bytes, %d newlines)%q…", len(ev.chunk), strings.Count(string(ev.chunk), "\n"), ev.chunk[:24]))
+				} else {
+					ed = append(ed, fmt.Sprintf("W%q", ev.chunk))
+				}
 			case 'S':
 				if len(partial) > 0 {
 					want = append(want, string(partial))
